@@ -794,3 +794,127 @@ def _b_char_case(ctx):
     for f, ref in ((str.upper, _ref_upper), (str.lower, _ref_lower)):
         _bounded_lines_transformer(ctx, 'case_converters._CaseConverter._transform(%s)' % f.__name__, converter(f), ref,
                                    'aB\xdfΣ\n ', 6 if ctx.tier == 'thorough' else 5)
+
+
+# ------------------------------------------------------------------------------ the assertion: PASS iff the matcher holds
+# `contents FILE : MATCHER`, `stdout MATCHER`, ...: the assertion part applies the matcher to the text; FAIL iff its
+# value is False, HARD_ERROR only from a HardErrorException; `translate_pfh_exception_to_pfh` makes PASS of a normal
+# return.  (Resolving the matcher expression to the matcher object is C08 / C06; assumed here.)
+
+from exactly_lib.impls.instructions.assert_.utils.file_contents.parts import string_matcher_assertion_part as smap   # noqa: E402
+from exactly_lib.impls.exception import pfh_exception                                                                 # noqa: E402
+from exactly_lib.test_case.result import pfh                                                                          # noqa: E402
+
+P_SMAP = 'exactly_lib.impls.instructions.assert_.utils.file_contents.parts.string_matcher_assertion_part'
+
+
+def _hard_error(interp, o):
+    e = HardErrorException.__new__(HardErrorException)
+    e._error = Any_.make(interp, 'error-message')
+    e.args = ()
+    return e
+
+
+class TextMatcherMayFailI(TextMatcherI):
+    """a string matcher that may also stop with a HardErrorException (e.g. a program that cannot be run)"""
+    methods = {'matches_w_trace': Method(
+        may_raise=(_hard_error,),
+        model=None, returns=Inst(MatchingResult, _value=Bool, _trace=Any_),
+        ensures=lambda self, model, result: result.value == self.D(model.txt))}
+
+
+class ResolvingHelperI(Interface):
+    """LogicTypeResolvingHelper: resolve_matcher(sdv) gives the matcher the expression denotes (assumed: C08/C06)"""
+    methods = {'resolve_matcher': Method(model=lambda interp, self, args, kwargs:
+                                         interp.reg.opaque_getattr(interp, args[0], 'denoted'))}
+
+
+class MatcherSdvI(Interface):
+    attrs = {'denoted': Iface(TextMatcherMayFailI), 'references': Any_}
+
+
+M.contract('exactly_lib.impls.instructions.utils.logic_type_resolving_helper:resolving_helper_for_instruction_env',
+           params=dict(os_services=Any_, environment=Any_), returns=Iface(ResolvingHelperI), trusted=True)
+M.trust('resolving_helper_for_instruction_env(...).resolve_matcher(sdv) yields the string matcher that the parsed expression '
+        'denotes (symbol resolution and the expression grammar are C08 / C06)')
+
+M.contract(P_SMAP + ':StringMatcherAssertionPart._apply_matcher',
+           params=dict(matcher=Iface(TextMatcherMayFailI), model=SS),
+           returns=Inst(MatchingResult, _value=Bool, _trace=Any_),
+           raises={pfh_exception.PfhHardErrorException: {}},
+           ensures={'the value of the matcher on the text': lambda matcher, model, result:
+                    result.value == matcher.D(model.txt)},
+           raises_only=(pfh_exception.PfhHardErrorException,))
+
+M.contract(P_SMAP + ':StringMatcherAssertionPart._check',
+           params=dict(self=Inst(smap.StringMatcherAssertionPart, _string_matcher=Iface(MatcherSdvI), _validator=Any_),
+                       environment=Any_, os_services=Any_, model=SS),
+           raises={pfh_exception.PfhFailException: {'ensures': lambda self, model, exc:
+                                                     not self._string_matcher.denoted.D(model.txt)},
+                   pfh_exception.PfhHardErrorException: {}},
+           ensures={'returns (PASS) only if the matcher holds of the text': lambda self, model:
+                    self._string_matcher.denoted.D(model.txt)},
+           raises_only=(pfh_exception.PfhFailException, pfh_exception.PfhHardErrorException))
+
+
+class ActionI(Interface):
+    """an assertion action: returns, or raises a PfhException (FAIL / HARD_ERROR)"""
+    attrs = {'outcome': OneOf('pass', 'fail', 'hard-error')}
+    methods = {'__call__': Method(model=lambda interp, self, args, kwargs: _run_action(interp, self))}
+
+
+def _run_action(interp, action):
+    from pyvc.interp import PyRaise
+    o = interp.resolve(interp.reg.opaque_getattr(interp, action, 'outcome'))
+    if o == 'fail':
+        raise PyRaise(interp.construct(pfh_exception.PfhFailException, [Any_.make(interp, 'msg')], {}))
+    if o == 'hard-error':
+        raise PyRaise(interp.construct(pfh_exception.PfhHardErrorException, [Any_.make(interp, 'msg')], {}))
+    return None
+
+
+M.contract('exactly_lib.impls.exception.pfh_exception:translate_pfh_exception_to_pfh', params=dict(action=Iface(ActionI)),
+           ensures={'PASS iff the action returns; FAIL / HARD_ERROR as raised': lambda action, result:
+                    result.status is {'pass': pfh.PassOrFailOrHardErrorEnum.PASS,
+                                      'fail': pfh.PassOrFailOrHardErrorEnum.FAIL,
+                                      'hard-error': pfh.PassOrFailOrHardErrorEnum.HARD_ERROR}[action.outcome]},
+           raises_only=())
+
+
+# ------------------------------------------------------------------------------ the `equals` matcher object
+
+class PostSdsValidatorI(Interface):
+    """PreOrPostSdsValidatorPrimitive: None, or an error message (e.g. the expected file does not exist)"""
+    attrs = {'error': Opt(Any_)}
+    methods = {'validate_post_sds_if_applicable': Method(model=lambda interp, self, args, kwargs:
+                                                         interp.reg.opaque_getattr(interp, self, 'error'))}
+
+
+def _mk_equality_matcher(interp, name):
+    m = Inst(equality._EqualityStringMatcher, _expected_contents=SS, _validator=Iface(PostSdsValidatorI),
+             _expected_detail_renderer=Any_, _structure_renderer=Any_).make(interp, name)
+    a = APPLIER.make(interp, name + '._applier')
+    a._expected = m._expected_contents
+    m._applier = a
+    return m
+
+
+EQUALITY_MATCHER = Custom(_mk_equality_matcher)
+
+M.contract(P_EQ + ':_EqualityStringMatcher._result_for_no_match',
+           params=dict(self=EQUALITY_MATCHER, actual=FixedList()),
+           ensures={'a result that is False': lambda result: result.value is False}, raises_only=())
+
+M.contract(P_EQ + ':_EqualityStringMatcher.matches_w_trace', params=dict(self=EQUALITY_MATCHER, model=SS),
+           ensures={'equals: True iff the expected text can be had and the two texts are equal':
+                    lambda self, model, result:
+                    result.value == (self._validator.error is None and self._expected_contents.txt == model.txt)},
+           raises_only=())
+
+M.contract(P_EQ + ':_EqualityStringMatcher.__init__',
+           params=dict(self=Inst(equality._EqualityStringMatcher), expected_contents=SS,
+                       validator=Iface(PostSdsValidatorI)),
+           ensures={'the strategies compare with the expected text; a match is True': lambda self, expected_contents:
+                    self._applier._expected is expected_contents and self._applier._result_for_match.value is True
+                    and self._applier._build_result_for_no_match == self._result_for_no_match},
+           raises_only=())
